@@ -6,6 +6,8 @@ import (
 	"encoding/binary"
 	"errors"
 	"fmt"
+	"runtime"
+	"strings"
 	"sync"
 	"time"
 
@@ -62,6 +64,16 @@ type fakeChain struct {
 	// takes minutes to hours on a real chain; blocks keep arriving meanwhile)
 	holdCh chan *heldRescan
 	held   *heldRescan
+
+	// failFired (buffered) receives a token when the injected FilterBlocks failure fires; failHeight is the height
+	// of the first block of the failing request (= of the rest of the recovery batch being scanned).
+	failFired  chan struct{}
+	failHeight int32
+	// holdAt != 0: the GetBlockHash(holdAt) call made by the block loop of (*Wallet).recovery blocks (once) until
+	// holdRelease is closed; holdReached (buffered) tells the runner that the loop is parked there.
+	holdAt      int32
+	holdReached chan struct{}
+	holdRelease chan struct{}
 }
 
 // heldRescan is a rescan whose RescanFinished notification the backend has not sent yet.
@@ -69,6 +81,61 @@ type heldRescan struct {
 	tip     *fblock       // the best-chain tip when Rescan was called (what RescanFinished will report)
 	release chan struct{} // closed by finishHeld
 	done    chan struct{} // closed once RescanFinished was handed to the wallet (or the connection went away)
+}
+
+// armHold parks the next recovery loop that fetches the hash of block `height`.
+func (fc *fakeChain) armHold(height int32) {
+	fc.mu.Lock()
+	defer fc.mu.Unlock()
+	fc.holdAt = height
+	fc.holdReached = make(chan struct{}, 1)
+	fc.holdRelease = make(chan struct{})
+}
+
+func (fc *fakeChain) disarmHold() {
+	fc.mu.Lock()
+	defer fc.mu.Unlock()
+	fc.holdAt = 0
+}
+
+// calledFrom reports whether a function whose name ends in `suffix` is on the caller's stack.
+func calledFrom(suffix string) bool {
+	pc := make([]uintptr, 32)
+	n := runtime.Callers(2, pc)
+	frames := runtime.CallersFrames(pc[:n])
+	for {
+		f, more := frames.Next()
+		if strings.HasSuffix(f.Function, suffix) {
+			return true
+		}
+		if !more {
+			return false
+		}
+	}
+}
+
+// goroutineParked reports whether some goroutine with `fn` on its stack is currently blocked in state `state`
+// (e.g. "chan receive"), according to the runtime's goroutine dump.
+func goroutineParked(fn, state string) bool {
+	buf := make([]byte, 1<<16)
+	for {
+		n := runtime.Stack(buf, true)
+		if n < len(buf) {
+			buf = buf[:n]
+			break
+		}
+		buf = make([]byte, 2*len(buf))
+	}
+	for _, g := range strings.Split(string(buf), "\n\n") {
+		nl := strings.IndexByte(g, '\n')
+		if nl < 0 {
+			continue
+		}
+		if strings.Contains(g[:nl], "["+state) && strings.Contains(g[nl:], fn) {
+			return true
+		}
+	}
+	return false
 }
 
 // conn is one "connection" of a wallet to the backend: a notification channel and its shutdown signal.
@@ -243,6 +310,17 @@ func (fc *fakeChain) GetBlock(h *chainhash.Hash) (*wire.MsgBlock, error) {
 
 func (fc *fakeChain) GetBlockHash(height int64) (*chainhash.Hash, error) {
 	fc.mu.Lock()
+	if fc.holdAt != 0 && int64(fc.holdAt) == height && calledFrom("wallet.(*Wallet).recovery") {
+		fc.holdAt = 0
+		reached, release := fc.holdReached, fc.holdRelease
+		fc.mu.Unlock()
+		reached <- struct{}{}
+		select {
+		case <-release:
+		case <-time.After(30 * time.Second):
+		}
+		fc.mu.Lock()
+	}
 	defer fc.mu.Unlock()
 	if height < 0 || height >= int64(len(fc.best)) {
 		return nil, errNoBlock
@@ -269,8 +347,18 @@ func (fc *fakeChain) FilterBlocks(req *chain.FilterBlocksRequest) (*chain.Filter
 	fc.mu.Lock()
 	fc.filterCalls++
 	fail := fc.filterFailAt != 0 && fc.filterCalls == fc.filterFailAt
+	fired := fc.failFired
+	if fail && len(req.Blocks) > 0 {
+		fc.failHeight = req.Blocks[0].Height
+	}
 	fc.mu.Unlock()
 	if fail {
+		if fired != nil {
+			select {
+			case fired <- struct{}{}:
+			default:
+			}
+		}
 		return nil, errors.New("fakechain: injected FilterBlocks failure")
 	}
 	bf := chain.NewBlockFilterer(fc.params, req)
@@ -396,16 +484,16 @@ func (fc *fakeChain) Rescan(start *chainhash.Hash, addrs []btcutil.Address, outp
 	return nil
 }
 
-// armHold makes the next Rescan call a held one and returns the channel on which it is announced (after its RelevantTx
+// armRescanHold makes the next Rescan call a held one and returns the channel on which it is announced (after its RelevantTx
 // notifications were handed to the wallet).
-func (fc *fakeChain) armHold() chan *heldRescan {
+func (fc *fakeChain) armRescanHold() chan *heldRescan {
 	fc.mu.Lock()
 	defer fc.mu.Unlock()
 	fc.holdCh = make(chan *heldRescan, 1)
 	return fc.holdCh
 }
 
-func (fc *fakeChain) disarmHold() {
+func (fc *fakeChain) disarmRescanHold() {
 	fc.mu.Lock()
 	defer fc.mu.Unlock()
 	fc.holdCh = nil
@@ -431,8 +519,8 @@ func (fc *fakeChain) finishHeld() bool {
 
 func (fc *fakeChain) NotifyReceived([]btcutil.Address) error { return nil }
 func (fc *fakeChain) NotifyBlocks() error                    { return nil }
-func (fc *fakeChain) Notifications() <-chan interface{} { return fc.conn().ntfn }
-func (fc *fakeChain) BackEnd() string { return "fake" }
+func (fc *fakeChain) Notifications() <-chan interface{}      { return fc.conn().ntfn }
+func (fc *fakeChain) BackEnd() string                        { return "fake" }
 func (fc *fakeChain) TestMempoolAccept([]*wire.MsgTx, float64) ([]*btcjson.TestMempoolAcceptResult, error) {
 	return nil, errors.New("fakechain: testmempoolaccept not supported")
 }
